@@ -23,9 +23,9 @@ func init() {
 			ruleJSONPathStateFresh(r)
 			ruleKeyEncoders(r) // grouping keys are a pure function of the label set (no per-process seed): key-sorted output is the same in every process
 			ruleKeySiblings(r)
-			ruleLabelFormatDirection(r)   // renames of one stage are applied in the order they were written
+			ruleLabelFormatDirection(r) // renames of one stage are applied in the order they were written
 			ruleRewriteLoopsWhole(r)
-			ruleLabelSetString(r)         // one label set has one stream key (names ordered by a total order)
+			ruleLabelSetString(r) // one label set has one stream key (names ordered by a total order)
 		},
 	})
 }
